@@ -66,7 +66,9 @@ class StrategyFamily(common.Family):
         'shardable': rng.random() < 0.6,
         # source kind: SequenceDataSource / ShardedIterable / plain iterable,
         # optionally handed to the pipeline already sharded (i of k)
-        'src_kind': rng.choice(['seq', 'seq', 'iter', 'plain']),
+        'src_kind': rng.choice(['seq', 'seq', 'multi', 'iter', 'plain']),
+        # (multi: the data set is stored as several files; their sizes)
+        'files': [rng.choice([0, 1, 1, 2, 2, 3]) for _ in range(6)],
         'pre_shard': rng.choice([None, None, [0, 2], [1, 2], [2, 3]]),
         'cuts': cuts,
         'k': rng.choice([1, 2, 3, 4, 5]),
@@ -104,6 +106,14 @@ class StrategyFamily(common.Family):
         return NonShardable(pipes.make_data(spec))
       if kind == 'iter':
         ds = io.ShardedIterable(pipes.make_data(spec))
+      elif kind == 'multi':
+        data = pipes.make_data(spec)
+        parts, at = [], 0
+        for k in cfg.get('files') or [len(data)]:
+          parts.append(data[at:at + k])
+          at += k
+        parts.append(data[at:])
+        ds = io.SequenceDataSource.from_sequences(parts)
       else:
         ds = pipes.sequence_source(spec)
       if pre:
